@@ -545,8 +545,18 @@ func (e *Engine) stdStub(full string, c *ast.CallExpr, recv *Value, args []Value
 		return res, true
 	case "unicode/utf8.RuneCountInString", "unicode/utf8.RuneCount":
 		note(full + ": 0 <= n <= len; n == 0 iff len == 0")
-		_, _, ln := e.bytesOf(st, args[0])
-		res := e.pureUF(full, sig, recv, args, st)
+		arr, off, ln := e.bytesOf(st, args[0])
+		var res []Value
+		if full == "unicode/utf8.RuneCountInString" && !e.bv {
+			// the count is a function of the bytes: runecnt(arr, off, n) is the number of runes in arr[off:off+n], the
+			// same function the executor steps once per iteration of a range over the string (Go spec: a range clause
+			// and RuneCountInString both treat an erroneous or short encoding as one rune of width 1)
+			e.declareFun("runecnt", []string{"(Array Int Int)", e.isort(), e.isort()}, e.isort())
+			res = []Value{{sx("runecnt", arr, off, ln), sig.Results().At(0).Type()}}
+			note(full + ": the number of iterations of a range over the string")
+		} else {
+			res = e.pureUF(full, sig, recv, args, st)
+		}
 		e.assume(st.pc, and(sx("<=", "0", res[0].T), sx("<=", res[0].T, ln), implies(sx(">", ln, "0"), sx(">", res[0].T, "0")), sx("<=", ln, sx("*", "4", res[0].T))))
 		return res, true
 	case "errors.New", "fmt.Errorf":
